@@ -38,6 +38,8 @@ class View:
 
     def prev_dump(self, i):
         for j in range(i - 1, -1, -1):
+            if self.ops[j][0].startswith("restore"):
+                return None     # the state was replaced by a snapshot: earlier dumps are stale
             if self.kind[j] == "dump" and self.D[j]:
                 # only valid if no committed call lies between j and i
                 for k in range(j + 1, i):
@@ -48,6 +50,8 @@ class View:
 
     def next_dump(self, i):
         for j in range(i + 1, len(self.ops)):
+            if self.ops[j][0].startswith("restore"):
+                return None
             if self.kind[j] == "dump" and self.D[j]:
                 for k in range(i + 1, j):
                     if self.kind[k] == "call" and not self.call[k]["probe"] and self.R[k]["st"] == "ok":
@@ -272,6 +276,8 @@ def m_C05(v):
     raws = []
     pre = None
     for i, k in enumerate(v.kind):
+        if v.ops[i][0].startswith("restore") or k == "deploy":
+            raws, pre = [], None
         if not v.committed(i):
             continue
         c, R = v.call[i], v.R[i]
@@ -361,6 +367,8 @@ def m_C08(v):
     out = []
     pre = None
     for i, k in enumerate(v.kind):
+        if v.ops[i][0].startswith("restore") or k == "deploy":
+            pre = None
         if not v.committed(i) or v.call[i]["ep"] != "filter":
             continue
         if pre is None:
@@ -511,3 +519,534 @@ MONITORS = {
     "C01": [m_C01], "C02": [m_C02], "C03": [m_C03], "C05": [m_C05], "C07": [m_C07],
     "C08": [m_C08], "C09": [m_C09], "C12": [m_C12], "C13": [m_C13],
 }
+
+
+# ------------------------------------------------------------------------------------------
+# further monitors
+# ------------------------------------------------------------------------------------------
+
+def stage_of(g, rnd):
+    conf, sel, claim = [int(x) for x in g["cfg"].split(",")]
+    f = g["flags"]
+    if rnd < conf:
+        return 0
+    if rnd < sel:
+        return 1
+    if not (f[2] == "1" and f[3] == "1"):
+        return 2
+    if rnd < claim:
+        return 2
+    return 3
+
+
+ALLOC = ("addTickets", "addTicketsV1", "addTicketsV2")
+STAGE_REQ = {
+    "addTickets": (0,), "addTicketsV1": (0,), "addTicketsV2": (0,), "setTicketPrice": (0,), "setPerTicket": (0,),
+    "setNftCost": (0,), "setSchedule2": (0,), "confirm": (1,), "confirmNft": (1,),
+    "blacklist": (0, 1), "refundUsers": (0, 1), "unblacklist": (0, 1),
+    "filter": (2,), "select": (2,), "distribute": (2,), "selectNft": (2,), "secondary": (2,),
+    "claimPayment": (3,),
+}
+
+
+def m_C06(v):
+    """gated endpoints are accepted only in their phase; sub-steps in order; stage never decreases"""
+    out = []
+    last_stage = None
+    for i, k in enumerate(v.kind):
+        if k == "deploy":
+            last_stage = None
+        if k == "dump" and v.D[i]:
+            g, _ = v.D[i]
+            rnd = int(v.ops[i][0].split()[1])
+            st = stage_of(g, rnd)
+            if last_stage is not None and st < last_stage[0] and rnd >= last_stage[1]:
+                out.append((i, f"C06 stage moved backwards from {last_stage[0]} to {st}"))
+            last_stage = (st, rnd)
+            conf, sel, claim = [int(x) for x in g["cfg"].split(",")]
+            if not (conf < sel <= claim):
+                out.append((i, f"C06 timeline {conf},{sel},{claim} violates confirmation < selection <= claim"))
+        if not v.accepted(i):
+            continue
+        c = v.call[i]
+        pd = v.prev_dump(i)
+        if not pd:
+            continue
+        g, addrs = pd
+        st = stage_of(g, c["round"])
+        req_st = STAGE_REQ.get(c["ep"])
+        if req_st is not None and st not in req_st:
+            out.append((i, f"C06 {c['ep']} accepted in stage {st}, allowed only in {req_st}"))
+        f = g["flags"]
+        if c["ep"] == "filter" and f[1] == "1":
+            out.append((i, "C06 filterTickets accepted after the filter had completed"))
+        if c["ep"] == "select" and (f[1] != "1" or f[2] == "1"):
+            out.append((i, "C06 selectWinners accepted out of order"))
+        if c["ep"] in ("distribute", "selectNft", "secondary") and (f[2] != "1" or f[3] == "1"):
+            out.append((i, f"C06 {c['ep']} accepted out of order"))
+        if c["ep"] == "claim" and st != 3:
+            d = addrs.get(c["caller"])
+            if not (v.variant in gen.VESTED and d and d.get("cl") == "1"):
+                out.append((i, f"C06 claim accepted in stage {st}"))
+        if c["ep"] in ("setConfStart", "setSelStart", "setClaimStart"):
+            conf, sel, claim = [int(x) for x in g["cfg"].split(",")]
+            old = {"setConfStart": conf, "setSelStart": sel, "setClaimStart": claim}[c["ep"]]
+            new = int(c["args"][0])
+            if old <= c["round"] or new <= c["round"]:
+                out.append((i, f"C06 {c['ep']}({new}) accepted at round {c['round']} with old value {old}"))
+    return out
+
+
+def m_C10(v):
+    """blacklisting refunds in full, zeroes, blocks; un-blacklisting touches nobody else"""
+    out = []
+    for i, k in enumerate(v.kind):
+        if not (v.kind[i] == "call"):
+            continue
+        c, R = v.call[i], v.R[i]
+        pd = v.prev_dump(i)
+        if not pd:
+            continue
+        g, addrs = pd
+        ptok, price = price_of(g)
+        if c["ep"] in ("blacklist", "refundUsers") and R["st"] == "ok":
+            users = [int(x) for x in c["args"][1:]]
+            fee_tok, fee = None, 0
+            if v.variant in gen.NFT and "cost" in g:
+                ct, cn, ca = g["cost"].split(":")
+                fee_tok, fee = int(ct), int(ca)
+            for u in users:
+                d = addrs.get(u)
+                if d is None:
+                    continue
+                if d.get("range", "none") == "none":
+                    out.append((i, f"C10 address {u} without allocation was blacklisted"))
+                exp = price * int(d["conf"])
+                paid_fee = fee if (fee_tok is not None and u in ilist(g.get("payers", "[]"))) else 0
+                got = xf_to(R, u, ptok)
+                want = exp + (paid_fee if fee_tok == ptok else 0)
+                if got != want:
+                    out.append((i, f"C10 blacklisting refunded {got} of the payment token to {u}, paid {want}"))
+                if fee_tok is not None and fee_tok != ptok and xf_to(R, u, fee_tok) != paid_fee:
+                    out.append((i, f"C10 NFT fee refund to {u} is {xf_to(R, u, fee_tok)}, paid {paid_fee}"))
+            if not c["probe"]:
+                nd = v.next_dump(i)
+                if nd:
+                    g2, a2 = nd
+                    for u, d in addrs.items():
+                        d2 = a2.get(u)
+                        if d2 is None:
+                            continue
+                        if u in users:
+                            if d2["bl"] != "1" or d2["conf"] != "0":
+                                out.append((i, f"C10 after blacklisting {u}: blacklisted={d2['bl']} confirmed={d2['conf']}"))
+                        elif (d2["conf"], d2["range"], d2["bl"]) != (d["conf"], d["range"], d["bl"]):
+                            out.append((i, f"C10 blacklisting changed the record of the unrelated address {u}"))
+        if c["ep"] == "unblacklist" and R["st"] == "ok" and not c["probe"]:
+            users = [int(x) for x in c["args"][1:]]
+            nd = v.next_dump(i)
+            if nd:
+                g2, a2 = nd
+                for u, d in addrs.items():
+                    d2 = a2.get(u)
+                    if d2 is None:
+                        continue
+                    same = (d2["conf"], d2["range"], d2.get("win")) == (d["conf"], d["range"], d.get("win"))
+                    if not same:
+                        out.append((i, f"C10 un-blacklisting changed tickets/confirmations of {u}"))
+                    if u not in users and (d2["bl"], d2.get("uts")) != (d["bl"], d.get("uts")):
+                        out.append((i, f"C10 un-blacklisting changed the record of the unrelated address {u}"))
+                    if u in users and d["bl"] == "1":
+                        if d2["bl"] != "0":
+                            out.append((i, f"C10 {u} still blacklisted after un-blacklisting"))
+                        if d.get("bluts", "none") != "none" and d2.get("uts") != d.get("bluts"):
+                            out.append((i, f"C10 guarantee record of {u} not restored: {d2.get('uts')} vs parked {d.get('bluts')}"))
+        if c["ep"] == "confirm" and R["st"] == "ok":
+            d = addrs.get(c["caller"])
+            if d and d.get("bl") == "1":
+                out.append((i, "C10 a blacklisted address confirmed tickets"))
+    return out
+
+
+def qualified(variant, uts, conf, minc):
+    if uts in (None, "none"):
+        return 0
+    if variant == "guarV2":
+        allow, infos = uts.split(":", 1)
+        q = 0
+        for item in canon.parse_list(infos):
+            g, m = item.split("/")
+            if conf >= int(m):
+                q += int(g)
+        return q
+    a, b, c, d = [int(x) for x in uts.split(":")]
+    g = d if conf >= b else 0
+    if (g > 0 and conf >= a + b) or (g == 0 and conf >= minc):
+        g += c
+    return g
+
+
+def m_C11(v):
+    """guarantees honoured with the holder's own, existing tickets"""
+    out = []
+    if v.variant not in gen.GUAR:
+        return out
+    pre = None
+    ep_name = "secondary" if v.variant == "nftGuar" else "distribute"
+    for i, k in enumerate(v.kind):
+        if v.ops[i][0].startswith("restore") or k == "deploy":
+            pre = None
+        if not v.committed(i) or v.call[i]["ep"] != ep_name:
+            continue
+        if pre is None:
+            pd = v.prev_dump(i)
+            pre = pd if pd else "unknown"
+        nd = v.next_dump(i)
+        if nd and pre not in (None, "unknown"):
+            g1, a1 = nd
+            g0, a0 = pre
+            guaranteed_done = g1["flags"][3] == "1" or g1["op"].startswith("nft") or (g1["op"].startswith("guar") and g1["wl"] == "[]")
+            last = int(g1["last"])
+            for t in ilist(g1["status"]):
+                if t < 1 or t > last:
+                    out.append((i, f"C11 ticket id {t} outside 1..{last} marked winning"))
+            if guaranteed_done and g0["flags"][3] == "0":
+                minc = int(g0.get("minc", "0"))
+                for u, d in a0.items():
+                    if d.get("uts", "none") == "none" or d.get("range", "none") == "none":
+                        continue
+                    conf = int(d["conf"])
+                    q = qualified(v.variant, d["uts"], conf, minc)
+                    need = min(q, conf)
+                    have = len(winners_of(a1[u])) if u in a1 else 0
+                    if u in ilist(g0["wl"]) and have < need:
+                        out.append((i, f"C11 participant {u} qualified for {q} guaranteed tickets (confirmed {conf}) holds {have} winning"))
+                pre = None
+        if v.R[i].get("ret") == "[0]":
+            pre = None
+    return out
+
+
+def m_C14(v):
+    """NFT draw: min(available, payers) distinct payers; fee accounting"""
+    out = []
+    if v.variant not in gen.NFT:
+        return out
+    pre = None
+    ep_name = "secondary" if v.variant == "nftGuar" else "selectNft"
+    for i, k in enumerate(v.kind):
+        if v.ops[i][0].startswith("restore") or k == "deploy":
+            pre = None
+        if v.kind[i] != "call":
+            continue
+        c, R = v.call[i], v.R[i]
+        pd = v.prev_dump(i)
+        if c["ep"] == "confirmNft" and R["st"] == "ok" and pd:
+            g, addrs = pd
+            d = addrs.get(c["caller"])
+            ct, cn, ca = g["cost"].split(":")
+            pays = [(0, 0, c["egld"])] if not c["esdts"] else c["esdts"]
+            exact = len(pays) == 1 and pays[0] == (int(ct), int(cn), int(ca))
+            if not exact:
+                out.append((i, f"C14 NFT fee accepted with payment {pays}, fee {g['cost']}"))
+            if d and (int(d["conf"]) == 0 or d.get("paid") == "1"):
+                out.append((i, "C14 NFT fee accepted from a participant without confirmed tickets / who already paid"))
+            if stage_of(g, c["round"]) != 1:
+                out.append((i, "C14 NFT fee accepted outside the confirmation window"))
+        if c["ep"] == ep_name and v.committed(i):
+            if pre is None and pd and pd[0]["flags"][2] == "1":
+                pre = pd
+            if R.get("ret") == "[0]":
+                nd = v.next_dump(i)
+                if nd and pre:
+                    g0, _ = pre
+                    g1, _ = nd
+                    payers0 = ilist(g0["payers"]) + ilist(g0["nftw"])
+                    if g0["nftw"] == "[]":
+                        w = ilist(g1["nftw"])
+                        exp = min(int(g0["avail"]), len(payers0))
+                        if len(w) != exp or len(set(w)) != len(w) or not set(w) <= set(payers0):
+                            out.append((i, f"C14 drew {w} from payers {payers0} with {g0['avail']} NFTs available"))
+                        fee = int(g0["cost"].split(":")[2])
+                        if int(g1["cnft"]) != fee * len(w):
+                            out.append((i, f"C14 NFT proceeds {g1['cnft']} != fee {fee} x drawn {len(w)}"))
+                pre = None
+        if c["ep"] == "claim" and v.committed(i) and pd:
+            g, addrs = pd
+            d = addrs.get(c["caller"])
+            if d:
+                cat = 1 if d.get("won") == "1" else (2 if d.get("paid") == "1" else 3)
+                sft = canon.parse_list(R.get("sft", "[]"))
+                if sft != [f"{c['caller']}:{cat}"]:
+                    out.append((i, f"C14 claimant of category {cat} received SFTs {sft}"))
+                ct, cn, ca = g["cost"].split(":")
+                ptok, price = price_of(g)
+                refund_fee = int(ca) if cat == 2 else 0
+                if int(ct) != ptok:
+                    got = xf_to(R, c["caller"], int(ct))
+                    if got != refund_fee:
+                        out.append((i, f"C14 fee refund {got} to a category-{cat} claimant, expected {refund_fee}"))
+    return out
+
+
+OWNER_ONLY = {"addTickets", "addTicketsV1", "addTicketsV2", "deposit", "setTicketPrice", "setPerTicket", "setConfStart",
+              "setSelStart", "setClaimStart", "setSupport", "pause", "unpause", "claimPayment", "setSchedule1",
+              "setSchedule2", "setNftCost"}
+EXTENDED = {"blacklist", "refundUsers", "unblacklist", "issueSft", "createSfts", "setTransferRole"}
+
+
+def m_C15(v):
+    """privileged endpoints accept only their intended callers"""
+    out = []
+    owner = None
+    for i, k in enumerate(v.kind):
+        if k == "deploy":
+            owner = int(v.ops[i][0].split()[2])
+        if not v.accepted(i):
+            continue
+        c = v.call[i]
+        if c["ep"] in OWNER_ONLY and c["caller"] != owner:
+            out.append((i, f"C15 owner-only endpoint {c['ep']} accepted from {c['caller']}"))
+        if c["ep"] in EXTENDED:
+            pd = v.prev_dump(i)
+            if pd and c["caller"] != owner and c["caller"] != int(pd[0]["sup"]):
+                out.append((i, f"C15 {c['ep']} accepted from {c['caller']} (owner {owner}, support {pd[0]['sup']})"))
+        if c["caller"] >= 900 and c["caller"] != owner:
+            if c["ep"] == "select" or (c["ep"] == "distribute" and v.variant == "guarV2"):
+                out.append((i, f"C15 {c['ep']} accepted from a contract account"))
+    return out
+
+
+def m_C16(v):
+    """locked variants split exactly between the lock contract and the wallet"""
+    out = []
+    if v.variant not in gen.LOCKED:
+        return out
+    lp = v.deploy["lp"]
+    for i, k in enumerate(v.kind):
+        if not (v.committed(i) and v.call[i]["ep"] == "claim"):
+            continue
+        c, R = v.call[i], v.R[i]
+        pd = v.prev_dump(i)
+        if not pd:
+            continue
+        g, addrs = pd
+        d = addrs.get(c["caller"])
+        if not d:
+            continue
+        ent = int(g["per"]) * len(winners_of(d))
+        pct, unlock = [int(x) for x in g["lockcfg"].split(":")]
+        exp_lock = ent * pct // 10000 if c["epoch"] < unlock else 0
+        locks = canon.parse_list(R.get("lock", "[]"))
+        got_lock = 0
+        for l in locks:
+            ep_, dest, amt = [int(x) for x in l.split(":")]
+            got_lock += amt
+            if ep_ != unlock or dest != c["caller"]:
+                out.append((i, f"C16 lock call ({ep_},{dest}) instead of ({unlock},{c['caller']})"))
+        direct = xf_to(R, c["caller"], lp)
+        if got_lock != exp_lock or direct != ent - exp_lock:
+            out.append((i, f"C16 entitlement {ent}: locked {got_lock} (expected {exp_lock}), direct {direct} (expected {ent - exp_lock})"))
+    return out
+
+
+def m_C17(v):
+    """sale terms frozen once participants can commit funds"""
+    out = []
+    for i, k in enumerate(v.kind):
+        if not v.accepted(i):
+            continue
+        c = v.call[i]
+        pd = v.prev_dump(i)
+        if not pd:
+            continue
+        g, _ = pd
+        st = stage_of(g, c["round"])
+        if c["ep"] in ("setTicketPrice", "setNftCost", "setSchedule2", "setPerTicket") and st != 0:
+            out.append((i, f"C17 {c['ep']} accepted after confirmation started (stage {st})"))
+        if c["ep"] == "setSchedule1" and st != 0 and g.get("sched", "none") != "none":
+            out.append((i, "C17 existing v1 schedule changed after confirmation started"))
+        if c["ep"] == "setPerTicket" and g["dep"] == "1":
+            out.append((i, "C17 tokens-per-ticket changed after the deposit"))
+        if c["ep"] in ("setTicketPrice",) and int(c["args"][1]) == 0:
+            out.append((i, "C17 zero price accepted"))
+        if c["ep"] == "setPerTicket" and int(c["args"][0]) == 0:
+            out.append((i, "C17 zero tokens-per-ticket accepted"))
+    # terms never change except through their setters
+    prev = None
+    for i, k in enumerate(v.kind):
+        if k == "deploy":
+            prev = None
+        if k == "dump" and v.D[i]:
+            g, _ = v.D[i]
+            cur = (g["price"], g["per"], g.get("cost"))
+            if prev is not None and cur != prev[0]:
+                changed_by = [v.call[j]["ep"] for j in range(prev[1], i) if v.committed(j)]
+                if not any(e in ("setTicketPrice", "setPerTicket", "setNftCost") for e in changed_by):
+                    out.append((i, f"C17 sale terms changed from {prev[0]} to {cur} by {changed_by}"))
+            prev = (cur, i)
+    return out
+
+
+def m_C18(v):
+    """allocation: fresh, disjoint, exact-size ranges; once per participant; variant limits"""
+    out = []
+    for i, k in enumerate(v.kind):
+        if not (v.kind[i] == "call" and v.call[i]["ep"] in ALLOC and v.R[i]["st"] == "ok"):
+            continue
+        c = v.call[i]
+        pd = v.prev_dump(i)
+        if not pd:
+            continue
+        g, addrs = pd
+        a = c["args"]
+        n = int(a[0])
+        entries, j = [], 1
+        for _ in range(n):
+            if c["ep"] == "addTickets":
+                entries.append((int(a[j]), int(a[j + 1]), []))
+                j += 2
+            elif c["ep"] == "addTicketsV1":
+                entries.append((int(a[j]), int(a[j + 1]) + int(a[j + 2]), []))
+                j += 4
+            else:
+                m = int(a[j + 2])
+                infos = [(int(a[j + 3 + 2 * q]), int(a[j + 4 + 2 * q])) for q in range(m)]
+                entries.append((int(a[j]), int(a[j + 1]), infos))
+                j += 3 + 2 * m
+        seen = set()
+        nxt = int(g["last"]) + 1
+        for (u, cnt, infos) in entries:
+            if c["ep"] == "addTicketsV2" and cnt == 0:
+                continue
+            if u in seen or (u in addrs and addrs[u].get("range", "none") != "none"):
+                out.append((i, f"C18 address {u} allocated twice"))
+            seen.add(u)
+            if c["ep"] == "addTicketsV2":
+                if cnt > 255 or len(infos) > 10 or any(gq > mq for gq, mq in infos) or u >= 900:
+                    out.append((i, f"C18 v2 limits not enforced for ({u}, {cnt}, {infos})"))
+        if c["probe"]:
+            continue
+        nd = v.next_dump(i)
+        if nd:
+            g2, a2 = nd
+            for (u, cnt, infos) in entries:
+                if c["ep"] == "addTicketsV2" and cnt == 0:
+                    continue
+                if u in a2 and cnt > 0:
+                    exp = f"{nxt}-{nxt + cnt - 1}"
+                    if a2[u]["range"] != exp or a2[u]["tix"] != str(cnt):
+                        out.append((i, f"C18 address {u} asked {cnt}: range {a2[u]['range']} (expected {exp}), view says {a2[u]['tix']}"))
+                nxt += cnt
+            if int(g2["last"]) != nxt - 1:
+                out.append((i, f"C18 total tickets {g2['last']} != previous total + sum of allocations {nxt - 1}"))
+    return out
+
+
+def m_C19(v):
+    """paused: confirmations and selection steps rejected; rejected calls change nothing"""
+    out = []
+    for i, k in enumerate(v.kind):
+        if not v.accepted(i):
+            continue
+        c = v.call[i]
+        pd = v.prev_dump(i)
+        if not pd or pd[0]["paused"] != "1":
+            continue
+        gated = {"confirm", "filter", "select"}
+        if v.variant == "guarV2":
+            gated |= {"distribute", "claim"}
+        if c["ep"] in gated:
+            out.append((i, f"C19 {c['ep']} accepted while the contract is paused"))
+    return out
+
+
+def parse_ev(item):
+    name, rest = item.split("(", 1)
+    rest = rest[:-1]
+    tp, data = rest.split("|")
+    return name, [int(x) for x in tp.split(",") if x], [int(x) for x in data.split(",") if x]
+
+
+def m_C20(v):
+    """events carry exactly the quantities that changed"""
+    out = []
+    for i, k in enumerate(v.kind):
+        if v.kind[i] != "call":
+            continue
+        c, R = v.call[i], v.R[i]
+        if R["st"] != "ok":
+            continue
+        evs = [parse_ev(x) for x in canon.parse_list(R.get("ev", "[]"))]
+        for (name, tp, data) in evs:
+            if name in ("pauseContract", "unpauseContract"):
+                continue
+            if tp != [c["caller"], c["round"], c["epoch"]]:
+                out.append((i, f"C20 event {name} indexed by {tp}, transaction is ({c['caller']},{c['round']},{c['epoch']})"))
+        names = [e[0] for e in evs]
+        pd = v.prev_dump(i)
+        ret = R.get("ret")
+        for comp, ep in (("filterTicketsCompleted", "filter"), ("selectWinnersCompleted", "select"),
+                         ("distributeGuaranteedTicketsCompleted", "distribute")):
+            if c["ep"] == ep:
+                want = 1 if ret == "[0]" and not (ep == "distribute" and v.variant != "guarV2") else 0
+                if names.count(comp) != want:
+                    out.append((i, f"C20 {ep} returned {ret} and emitted {names.count(comp)} {comp} events"))
+        if c["ep"] == "confirm":
+            if names.count("confirmTickets") != 1:
+                out.append((i, f"C20 accepted confirmation emitted {names}"))
+            elif pd:
+                g, addrs = pd
+                d = addrs.get(c["caller"])
+                data = [e for e in evs if e[0] == "confirmTickets"][0][2]
+                n = int(c["args"][0])
+                ptok, price = price_of(g)
+                if d and d["tix"].isdigit():
+                    exp = [c["caller"], c["round"], c["epoch"], n, int(d["conf"]) + n, int(d["tix"]), ptok, 0, price * n]
+                    if data != exp:
+                        out.append((i, f"C20 confirmTickets payload {data} != {exp}"))
+        refunds = [e for e in evs if e[0] == "refundTicketPayment"]
+        if refunds and pd:
+            g, addrs = pd
+            ptok, price = price_of(g)
+            total = sum(e[2][6] for e in refunds)
+            sent = sum(a for (kk, a) in canon.canon_xf(R.get("xf", "[]")) if kk[1] == ptok and a > 0)
+            fee_part = 0
+            if v.variant in gen.NFT and "cost" in g and int(g["cost"].split(":")[0]) == ptok:
+                fee_part = None
+            if fee_part is not None and c["ep"] in ("claim", "blacklist", "refundUsers") and total != sent:
+                out.append((i, f"C20 refund events total {total}, payment tokens sent {sent}"))
+            for e in refunds:
+                if e[2][6] != price * e[2][3] or e[2][4] != ptok:
+                    out.append((i, f"C20 refund event {e[2]}: amount is not price x tickets"))
+        if c["ep"] in ("blacklist", "refundUsers") and pd:
+            g, addrs = pd
+            users = [int(x) for x in c["args"][1:]]
+            exp = sum(1 for u in users if u in addrs and int(addrs[u]["conf"]) > 0)
+            if all(u in addrs for u in users) and len(refunds) != exp:
+                out.append((i, f"C20 {len(refunds)} refund events for {exp} refunded participants"))
+        if c["ep"] == "setTicketPrice":
+            if names != ["setTicketPrice"] or evs[0][2][3:] != [int(c["args"][0]), 0, int(c["args"][1])]:
+                out.append((i, f"C20 setTicketPrice emitted {evs}"))
+        if v.variant == "guarV2":
+            if c["ep"] == "blacklist" and names.count("addUsersToBlacklist") != 1:
+                out.append((i, "C20 v2 blacklist change without addUsersToBlacklist event"))
+            if c["ep"] == "unblacklist" and names.count("removeGuaranteedUsersFromBlacklist") != 1:
+                out.append((i, "C20 v2 un-blacklisting without its event"))
+            if c["ep"] == "addTicketsV2" and names.count("addTickets") != 1:
+                out.append((i, "C20 v2 allocation batch without addTickets event"))
+            if c["ep"] == "setSchedule2" and names.count("setUnlockSchedule") != 1:
+                out.append((i, "C20 v2 schedule change without setUnlockSchedule event"))
+            if c["ep"] == "claim":
+                lp = v.deploy["lp"]
+                got = xf_to(R, c["caller"], lp)
+                cl = [e for e in evs if e[0] == "claimLaunchpadTokens"]
+                if (got > 0) != (len(cl) == 1) or (cl and cl[0][2][5] != got):
+                    out.append((i, f"C20 v2 claim paid {got} launchpad tokens, events {cl}"))
+    return out
+
+
+MONITORS.update({
+    "C06": [m_C06], "C10": [m_C10], "C11": [m_C11], "C14": [m_C14], "C15": [m_C15], "C16": [m_C16],
+    "C17": [m_C17], "C18": [m_C18], "C19": [m_C19], "C20": [m_C20],
+})
